@@ -5,10 +5,11 @@ from fractions import Fraction
 import numpy as np
 
 import gen
+import core
 from core import fr, w_rat, w_rats, p_rats, cmp_exact, cmp_budget, call_impl
 from _c17_common import norm_res, cmp_seq, cmp_rows, w_rows, p_rows, DYADIC_DTS
 
-PROP_MODULES = ['C03', 'C03a', 'C03Gen', 'C03Compose', 'C03GenSpectra']
+PROP_MODULES = ['C03', 'C03a', 'C03Gen', 'C03Compose', 'C03GenSpectra', 'C03GenSpec2', 'C03GenSpec2b']
 
 RULE = ("spectra: records n in 2..400 (quick) / 3000 of shapes hat/noise/sine/step/spike/int/1e+-6/zero, dt dyadic or in 10^[-3,0], 1..6 periods "
         "per call with T/dt log-uniform in [0.2, 2e4] or in {0.2,1,5.9,6,6.1,20}, optional leading 0, xi in {0,1e-3,0.05,0.3,0.7,0.99} u U[0,1), "
@@ -324,6 +325,8 @@ def object_api(ctx):
         calls['interp'] = (float(target_dt), even)
         return real_interp(values, dt, target_dt, even=even)
     eqsig.single.interp_array_to_approx_dt = spy
+    _np = core.no_probe()     # the spy records the LAST call: no probe calls in this section
+    _np.__enter__()
     try:
         for ci, (kind, rec, dt, rt, ratio, xi) in enumerate(cases):
             if rec == 'spike200':
@@ -404,6 +407,7 @@ def object_api(ctx):
                 ctx.flush()
     finally:
         eqsig.single.interp_array_to_approx_dt = real_interp
+        _np.__exit__(None, None, None)
     ctx.flush()
 
 
@@ -1072,6 +1076,12 @@ _run_main_r5 = run
 
 
 def run(ctx):
+    # response-spectrum leftovers (energy spectra, object-level rule, intensities, slow/Duhamel paths): generated code (Gen/Spec*) run by
+    # the driver with the implementation's own callee results vs the implementation (harness/props/_c03_spec2.py)
+    from _c03_spec2 import corr_spec2
+    with core.no_probe():      # corr_spec2 records the callee invocations of the implementation: no probe calls in between
+        corr_spec2(ctx)
+        ctx.flush()
     _run_main_r5(ctx)
     extras_r5(ctx)
     ctx.flush()
